@@ -40,7 +40,7 @@ ASSUMPTIONS = [
     'positions (operators, comprehensions, arguments, withitems, match_cases) are skipped and counted',
 ] + c01.ASSUMPTIONS[:3]
 
-NODE_OPS = ('replace', 'remove', 'cut', 'put', 'setitem', 'delitem', 'setattr', 'delattr')
+NODE_OPS = ('replace', 'remove', 'cut', 'put', 'setitem', 'delitem', 'setattr', 'delattr', 'put_prim')
 
 
 def params(tier):
